@@ -162,6 +162,12 @@ def generate(cls, rng):
         if r < 0.12:
             ops.append(["set_tz", rng.choice([None] +
                                              list(range(len(specs))))])
+        elif r < 0.135 and len(specs) > 1:
+            # the TZ variable is changed WITHOUT tzset() (the C library keeps
+            # its setting), and another tzlocal is built: a local zone built
+            # earlier goes on answering for the setting still in force
+            ops.append(["setenv_only", rng.randrange(len(specs)),
+                        rng.choice([2000, 2023, 2024])])
         elif r < 0.40 or handles == 0:
             ops.append(["make", "h%d" % handles, rng.choice(KINDS),
                         rng.randrange(len(specs))])
@@ -577,6 +583,40 @@ def execute(cls, scenario, ctx):
                 env.settings_seen.add(op[1])
                 ctx.event("set_tz", None if op[1] is None
                           else env.strings[op[1]])
+            elif k == "setenv_only":
+                _, j, year = op
+                if env.cur is None or j == env.cur:
+                    continue
+                spec = env.specs[env.cur]
+                try:
+                    z_old = env.tz.tzlocal()
+                    os.environ["TZ"] = env.strings[j]     # no tzset()
+                    env.tz.tzlocal()
+                    if spec.get("dst"):
+                        a, b = PX.transitions_utc(spec, year)
+                        probes = [a - 3600, a + 3600, b - 3600, b + 3600,
+                                  (a + b) // 2]
+                    else:
+                        probes = [1700000000, 1689000000]
+                    got = [observe(z_old, t) for t in probes]
+                finally:
+                    set_env(env.strings[env.cur])
+                ctx.probe("tz_variable_changed_without_tzset")
+                for t, g in zip(probes, got):
+                    off, abbr, isdst = PX.at(spec, t)
+                    sav = (spec["dstoff"] - spec["stdoff"]) \
+                        if spec.get("dst") else 0
+                    ctx.checks += 1
+                    if (g[0], g[1], g[2]) != (off, abbr,
+                                              sav if isdst else 0):
+                        ctx.violation(
+                            "C08.wrong_answer",
+                            dict(tz=env.strings[env.cur], zone_kind="tzlocal",
+                                 ts=t, got=g, want=[off, abbr,
+                                                    sav if isdst else 0],
+                                 note="TZ variable changed to %r without "
+                                      "tzset(), another tzlocal built" %
+                                      env.strings[j]))
             elif k == "make":
                 _, h, kind, i = op
                 if kind == "tzlocal" and env.cur is not None:
